@@ -27,6 +27,15 @@ func c01(c *Ctx) {
 
 	r.Rule("C01.control-undisturbing", "control frames arriving between data frames do not end the data stream: the default ping/pong/close handlers are the documented ones and the default ping and pong handlers return nil whatever WriteControl reports (same rule as C08.defaults)")
 	c08defaults(c, rd, "C01.control-undisturbing")
+	r.Rule("C01.early-bytes", "frames the client pipelined behind its handshake reach the frame reader exactly once: brNetConn.Read hands out the hijacked reader's bytes first and detaches it only once it is drained (same rule as C17.brnetconn)")
+	c.borrow(c17, map[string]string{"C17.brnetconn": "C01.early-bytes"})
+	r.Rule("C01.inflater-exclusive", "a decompressor returned to the pool is forgotten in the same step, so two connections never inflate through one flate reader (same rule as C03.inflater-exclusive)")
+	if c.poolTypestate("C01.inflater-exclusive", "(*flateReadWrapper).Close", "(*flateReadWrapper).Read") < 1 {
+		r.Fail("C01.inflater-exclusive", "(*flateReadWrapper).Close", "pool-put-site", c.fn("(*flateReadWrapper).Close").Pos(), "no Put of the inflater found")
+	}
+	if c.poolTypestate("C01.inflater-exclusive", "(*flateWriteWrapper).Close") < 1 {
+		r.Fail("C01.inflater-exclusive", "(*flateWriteWrapper).Close", "pool-put-site", c.fn("(*flateWriteWrapper).Close").Pos(), "no Put of the deflater found")
+	}
 	r.Rule("C01.write-bounds", "class invariant of the message writer, by assume/guarantee over all writer methods: maxFrameHeaderSize <= w.pos <= len(writeBuf) and len(writeBuf) > maxFrameHeaderSize are established by newConn/beginMessage, preserved by every store to w.pos, and make every index/slice site of Write, WriteString, ReadFrom, ncopy, flushFrame, Close and the WriteMessage fast path in bounds for every payload size and chunking; ncopy grants 1 <= n <= min(max, room) so the Write loops make progress")
 	w.writeBounds("C01.write-bounds")
 	w.frameHeader("C01.writer-codec", "C01.writer-codec", "C01.writer-codec")
